@@ -105,6 +105,9 @@ var c06Hostile = func() []string {
 		"select key where true group by key",
 		"select key, count(1) where true",
 		"select quantile(int(value), 2.0) where true",
+		"select quantile(int(value), 0 - 0.5) where true",
+		"select quantile(int(value), 0 - 25), count(1) where true",
+		"select quantile(int(value), 0.5 - 1) where key ^= 'k'",
 		"select quantile(int(value), 'x') where true",
 		"select quantile(int(value)) where true",
 		"select group_concat(value) where true",
